@@ -10,7 +10,7 @@ import itertools
 
 from sim import devices
 from sim.canon import Log, dec_table, enc_table, canon_row, canon_cell
-from sim.catalogue import RECIPES, NAMES, World, _csv_bytes
+from sim.catalogue import RECIPES, NAMES, cut_after_conflicts, World, _csv_bytes
 from sim.core import outcome, draw_config, not_a_harness_bug
 from sim.devices import LongTable, SimTable, PoisonedTail
 from sim.gen import gen_table, gen_sorted_table, sorted_row
@@ -172,6 +172,9 @@ def gen_case(rng, tier, g):
             stack.append([n2, rng.randrange(len(RECIPES[n2].variants))])
         n2 = rng.choice(HDR_CTOR_STACKABLE)
         stack.append([n2, rng.randrange(len(RECIPES[n2].variants))])
+    # (Conflict sets: their text form, which the formatting views would
+    # take, depends on the interpreter's hash seed)
+    cut_after_conflicts(stack)
     nf = rng.randint(3, 5)
     prof = 'default' if rec.profile == 'textish' else None
     if rec.profile == 'textish':
